@@ -81,6 +81,11 @@ def attacks(rng, decoy, port, thorough):
     out.append(("ext-subset-net", "dtd", '<!DOCTYPE x PUBLIC "-//x//y" "%s">' % net_uri, "", ""))
     out.append(("internal-subset-no-entity", "dtd", '<!DOCTYPE x [<!ELEMENT x ANY><!ATTLIST x a CDATA "d">]>', "", ""))
     out.append(("bare-doctype", "dtd", "<!DOCTYPE x>", "", ""))
+    # the same declarations in big bodies (a long comment after the DOCTYPE): 70 KB and 1.2 MB
+    pad70, pad1m = "<!--" + "p" * 70000 + "-->", "<!--" + "p" * 1200000 + "-->"
+    out.append(("internal-text-70k", "entity", '<!DOCTYPE x [<!ENTITY e "expanded">]>' + pad70, "&e;", ""))
+    out.append(("ext-general-file-70k", "entity", '<!DOCTYPE x [<!ENTITY e SYSTEM "%s">]>' % file_uri + pad70, "&e;", ""))
+    out.append(("internal-attr-1m", "entity", '<!DOCTYPE x [<!ENTITY e "expanded">]>' + pad1m, "", "&e;"))
     return out
 
 
@@ -134,7 +139,8 @@ def run(ctx):
             n = 0
             for name, cls, doctype, ref_text, ref_attr in attacks(rng, decoy, port, thorough):
                 for method in methods:
-                    cs_list = charsets if (thorough or name in ("ext-general-file", "internal-text", "nested-d4-k3")) else [rng.choice(charsets)]
+                    cs_list = charsets if (thorough or name in ("ext-general-file", "internal-text", "nested-d4-k3", "internal-text-70k",
+                                                                  "ext-general-file-70k")) else [rng.choice(charsets)]
                     for cs in cs_list:
                         n += 1
                         path = {"MKCOL": "/u/x%d/" % n, "MKCALENDAR": "/u/y%d/" % n}.get(method, "/u/cal/")
